@@ -23,13 +23,14 @@ def restNames (n : Nat) : List String := (List.range n).map (fun i => "_r" ++ to
 def pName (i : Nat) : String := "_p" ++ toString i
 
 /-! argument forms whose evaluation runs no code of the program (isInertArg of fc/expr_to_go.fo,
-restricted to the forms of the fragment): literals, variables, fields of a variable, lambdas, and
+restricted to the forms of the fragment): literals, variables (a union case without payload is one), fields of a variable, lambdas, and
 partial applications of such arguments (they only build a closure) -/
 mutual
 def isInert : Expr → Bool
   | .lit _ => true
   | .var _ => true
   | .prim (.fld _) [.var _] => true
+  | .prim (.ctor _ _) [] => true        -- a case without payload is a package variable
   | .lam _ _ => true
   | .call _ arity args => decide (args.length < arity) && isInertL args
   | _ => false
